@@ -211,7 +211,7 @@ def C01(tier, rng):
         cs.append(Case('dec.name %s' % hx(b), 'graph'))
     cs += growth_straddle_cases('dec.dns', tier)
     cs += sweep_wire_cases('dec.dns', both_layouts=False) + sweep_rr_wire_cases()
-    cs += header_count_cases() + label_length_octet_cases() + reserved_label_type_cases() + unicode_validator_cases()
+    cs += header_count_cases() + label_length_octet_cases() + reserved_label_type_cases() + unicode_validator_cases() + validator_boundary_wire_cases() + big_wks_cases()
     if tier != 'thorough':
         return cs
     return c01_thorough_chunks(cs)
@@ -370,6 +370,60 @@ def unicode_validator_cases():
                 cs.append(Case('dec.dns %s' % hx(b'\0\1\x81\x80\0\0\0\1\0\0\0\0' + w), 'unicode-validator'))
     return cs
 
+def validator_boundary_wire_cases():
+    """records whose validated strings are EMPTY / minimal / maximal in each position separately (a guard that tests the
+    wrong variable, or only the first string, shows on exactly one of these), stand-alone and in a message"""
+    cs = []
+    cstr = lambda s_: bytes([len(s_)]) + s_
+    def rr(ty, rd): return b'\1x\0' + ty.to_bytes(2, 'big') + b'\0\1\0\0\0\x3c' + len(rd).to_bytes(2, 'big') + rd
+    vals = (b'', b'1', b'9' * 255)
+    wires = []
+    for a in vals:
+        for b_ in vals:
+            for c in vals:
+                wires.append(rr(27, cstr(a) + cstr(b_) + cstr(c)))                      # GPOS longitude latitude altitude
+    for a in vals:
+        wires.append(rr(19, cstr(a)))                                                   # X25
+        for b_ in (None,) + vals:
+            wires.append(rr(20, cstr(a) + (b'' if b_ is None else cstr(b_))))          # ISDN address [sa]
+        wires.append(rr(257, b'\0' + cstr(a if a != b'9' * 255 else b'a' * 255) + b'v'))  # CAA tag
+        wires.append(rr(13, cstr(a) + cstr(b'')))                                       # HINFO
+        wires.append(rr(13, cstr(b'') + cstr(a)))
+    for w in wires:
+        cs.append(Case('dec.rr %s' % hx(w), 'validator-boundary'))
+        cs.append(Case('dec.dns %s' % hx(b'\0\1\x81\x80\0\0\0\1\0\0\0\0' + w), 'validator-boundary'))
+    return cs
+
+def big_wks_cases():
+    """WKS records whose bit map covers the whole port range and more (8191, 8192, 8193, 65000 octets): whatever walks the
+    bit map (Display lists the ports) must not count in sixteen bits"""
+    cs = []
+    for n in (8191, 8192, 8193, 20000, 65000):
+        for fill in (b'\xff', b'\x80', b'\0'):
+            rd = b'\x0a\0\0\1\x06' + fill * n
+            w = b'\1x\0\0\x0b\0\1\0\0\0\x3c' + len(rd).to_bytes(2, 'big') + rd
+            cs.append(Case('dec.rr %s' % hx(w), 'wks-big'))
+            cs.append(Case('dec.dns %s' % hx(b'\0\1\x81\x80\0\0\0\1\0\0\0\0' + w), 'wks-big'))
+    return cs
+
+def overlong_utf8_label_values():
+    """VALUES whose names contain a label of more than 63 OCTETS but at most 63 characters (multi-octet UTF-8), and names over
+    255 octets made of such labels: the constructors must refuse them (both sides answer `unconstructible`); a constructor
+    that counts characters lets the encoder write a reserved or pointer-looking length octet"""
+    cs = []
+    labs = [b'\xc3\xa9' * 32, b'\xc3\xa9' * 63, b'\xe2\x82\xac' * 22, b'\xf0\x9f\x98\x80' * 16, b'\xf0\x9f\x98\x80' * 48, b'\xf0\x9f\x98\x80' * 63, b'a' + b'\xc3\xa9' * 32]
+    long_ok = (b'\xc3\xa9' * 31, b'\xc3\xa9' * 31, b'\xc3\xa9' * 31, b'\xc3\xa9' * 31, b'ab')     # 4*63+3+1 = 256 octets, 126 characters
+    for l in labs + [None]:
+        n = long_ok if l is None else (l, b'example', b'org')
+        cs.append(Case('enc.name %s' % pname(n), 'utf8-overlong-value'))
+        cs.append(Case('enc.question %s' % pquestion({'name': n, 'qtype': 1, 'qclass': 1}), 'utf8-overlong-value'))
+        for rr in ({'ty': 2, 'name': (b'o',), 'ttl': 0, 'cls': 1, 'f': [n]}, {'ty': 1, 'name': n, 'ttl': 0, 'cls': 1, 'f': [b'\1\2\3\4']},
+                   {'ty': 33, 'name': (b'o',), 'ttl': 0, 'cls': 1, 'f': [1, 2, 3, n]}, {'ty': 39, 'name': (b'o',), 'ttl': 0, 'cls': 1, 'f': [n]},
+                   {'ty': 36, 'name': (b'o',), 'ttl': 0, 'cls': 1, 'f': [5, n]}):
+            cs.append(Case('enc.rr %s' % prr(rr), 'utf8-overlong-value'))
+            cs.append(Case('enc.dns %s' % pmsg(msg_with([rr], qs=[{'name': (b'example', b'org'), 'qtype': 1, 'qclass': 1}])), 'utf8-overlong-value'))
+    return cs
+
 def reserved_label_type_cases():
     """valid compressed messages in which the first octet of a compression pointer is rewritten with the RESERVED label types
     (top bits 01 and 10): such an octet is neither a length nor a pointer and must be refused, wherever the pointer was"""
@@ -461,6 +515,22 @@ def addr_guard_cases():
 def C02(tier, rng):
     cs = []
     cs += sweep_wire_cases('rt.dns')
+    # decodable messages whose re-encoding is exactly at the 65,535-octet limit (and one, two octets below; 65,536 decodes
+    # but is outside the property's guard)
+    for total in (65533, 65534, 65535, 65536):
+        for owner in ((), (b'p',)):
+            k = total - 12 - (sum(len(l) + 1 for l in owner) + 1) - 10
+            b, _ = render(msg_with([{'ty': 10, 'name': owner, 'ttl': 0, 'cls': 1, 'f': [bytes(i % 251 for i in range(k))]}]))
+            assert len(b) == total
+            cs.append(Case('rt.dns %s' % hx(b), 'limit%d' % total))
+        k2 = total - 12 - 17 - 11 - 2 * 11
+        if k2 > 0:
+            q = {'name': (b'example', b'org'), 'qtype': 1, 'qclass': 1}
+            half = k2 // 2
+            m = msg_with([{'ty': 10, 'name': (), 'ttl': 0, 'cls': 1, 'f': [bytes(half)]}, {'ty': 10, 'name': (), 'ttl': 0, 'cls': 1, 'f': [bytes(k2 - half)]},
+                          {'ty': 10, 'name': (), 'ttl': 0, 'cls': 1, 'f': [b'']}], qs=[q])
+            b, _ = render(m)
+            cs.append(Case('rt.dns %s' % hx(b), 'limit-multi%d' % len(b)))
     trips = layouts(rng, sz(tier, 3000, 40000))
     for m, b, r in trips:
         cs.append(Case('rt.dns %s' % hx(b), 'valid'))
@@ -569,7 +639,7 @@ def C03(tier, rng):
     for fam, size in ((1, 4), (2, 16)):
         cs += neighbour_cases(fam, size, tier, rng)
     cs += sweep_wire_cases('dec.dns') + sweep_rr_wire_cases()
-    cs += svcb_every_len_cases() + header_count_cases() + label_length_octet_cases() + unicode_validator_cases()
+    cs += svcb_every_len_cases() + header_count_cases() + label_length_octet_cases() + unicode_validator_cases() + validator_boundary_wire_cases()
     cs += reserved_label_type_cases() + dnskey_flag_cases(tier)
     cs += long_rdata_name_cases() + odd_label_wire_cases()
     return cs
